@@ -21,11 +21,16 @@ Import-free (compiled into the native driver, carrier `Rat`); the theorems are i
 import ZepidVerif.Model.Core
 namespace ZV.MC
 
-/-- a data-frame row: column id ↦ value -/
-abbrev Env (V : Type) := Nat → V
+/-- a data-frame row: column id ↦ value.  A structure, not a bare function type: a definition whose result type is a
+    function is compiled with the extra argument (`envCov cfg i d e j`), so every lookup would re-run the whole step
+    (exponential in the number of steps); a structure field is built once. -/
+structure Env (V : Type) where
+  get : Nat → V
 
-/-- `g[k] = v` on one row -/
-def Env.set {V : Type} (e : Env V) (k : Nat) (v : V) : Env V := fun j => if j = k then v else e j
+instance {V : Type} : CoeFun (Env V) (fun _ => Nat → V) := ⟨Env.get⟩
+
+/-- `g[k] = v` on one row (`noinline`: `v` is evaluated before the closure is built) -/
+@[noinline] def Env.set {V : Type} (e : Env V) (k : Nat) (v : V) : Env V := ⟨fun j => if j = k then v else e.get j⟩
 
 /-- right-hand sides of the recode grammar: `g['x']`, a literal, `+`, `*` -/
 inductive Expr (V : Type) where
